@@ -233,6 +233,13 @@ func TestC23(t *testing.T) {
 						return
 					}
 				}
+				if strings.HasPrefix(msg, "Select(") && strings.Contains(x.strat, "union-merge") && hasIn(c.tq.q) {
+					if e, ok := kf.Known("C23", "union-merge-select-in"); ok {
+						rec.Excluded("union-merge-select-in")
+						rec.Known(e.What)
+						return
+					}
+				}
 				t.Fatalf("C23: %s\nplan: %v\nstrategy: %s\n%s", msg, p, x.strat, c.describe())
 			}
 			nt := st.dirChanges >= 1 && st.hits >= 1 && st.misses >= 1
